@@ -5,7 +5,7 @@
    silently; `Print Assumptions` lists the axioms it depends on (none are declared by this development). *)
 From Coq Require Import NArith List Bool String.
 From Octo Require Import Base.Bytes Crypto.Prims Lib.Framed Lib.Canon Model.Address Model.NonceGen Model.SsChunk Model.SsTcp Model.Trojan Model.Socks5 Model.Http Generated.Params Generated.Shared
-  Proofs.AddressFacts Proofs.NonceFacts Proofs.SsChunkRoundtrip Proofs.SsChunkCanon Proofs.SsTcpSafety Proofs.SsTcpRoundtrip Proofs.CodecLemmas Proofs.TrojanFacts Proofs.Socks5Facts Proofs.HttpFacts.
+  Proofs.AddressFacts Proofs.NonceFacts Proofs.SsChunkRoundtrip Proofs.SsChunkCanon Proofs.SsTcpSafety Proofs.SsTcpRoundtrip Proofs.CodecLemmas Proofs.TrojanFacts Proofs.Socks5Facts Proofs.HttpFacts Model.Handshake Proofs.HandshakeFacts.
 Import ListNotations.
 Set Printing Width 200.
 
@@ -55,6 +55,119 @@ Definition C13_socks5_greeting_segmentation := @s5_initial_request_any_segmentat
 Definition C13_guard := @accept_addr_iff.
 
 
+(* httparse as recognize sees it: once method and path are set, more bytes never change them *)
+Definition C13_hs_request_line_prefix_done := @request_line_done_app.
+(* ... nor an error, nor whether the method was set before it *)
+Definition C13_hs_request_line_prefix_err := @request_line_err_app.
+(* method and path only ever come from a complete 'method SP uri SP' at the head of the stream (after empty lines) *)
+Definition C13_hs_request_line_sound := @request_line_done_inv.
+(* ... and every such line is parsed to exactly its method and uri *)
+Definition C13_hs_request_line_complete := @request_line_complete_blank.
+(* recognize: a decision taken on what has arrived is the decision taken on any longer arrival (non-empty, within the 1024-byte window) *)
+Definition C13_hs_recognize_prefix_stable := @recognize_prefix_stable.
+(* recognize waits exactly on an undecided window that is neither empty nor full *)
+Definition C13_hs_recognize_wait_iff := @recognize_wait_iff.
+(* never a wrong target: a target is recognize_http of the method and uri of a complete request line *)
+Definition C13_hs_recognize_target_sound := @recognize_target_sound.
+(* exactness of one recognize step on a well-formed request line, whatever follows *)
+Definition C13_hs_recognize_complete := @recognize_complete.
+(* outside the side condition: a request line cut by the full 1024-byte window is answered 414 or Unknown *)
+Definition C13_hs_recognize_full_window_refuses := @recognize_full_window_refuses.
+(* ... and so is ANY full window without a complete request line *)
+Definition C13_hs_recognize_full_window_undecided := @recognize_full_window_undecided_refuses.
+(* the DPanic decision is unreachable *)
+Definition C13_hs_recognize_never_panics := @recognize_never_panics.
+(* consume_request_head: the first CRLFCRLF does not move when more bytes arrive *)
+Definition C13_hs_consume_step_stable := @consume_step_stable.
+(* under every arrival history exactly head + CRLFCRLF is consumed: what follows stays for the tunnel *)
+Definition C13_hs_consume_head_exact := @consume_head_exact.
+(* HTTP and CONNECT: every arrival history gives the outcome of everything arriving at once *)
+Definition C13_hs_segmentation_independent := @handshake_segmentation_independent.
+(* plain HTTP: the named target (port 80 by default via recognize_http), no answer, NOTHING consumed *)
+Definition C13_hs_plain_http_forwarded_untouched := @plain_http_forwarded_untouched.
+(* CONNECT: the named target, the 200 answer, exactly the request head consumed *)
+Definition C13_hs_connect_yields_exact_target := @connect_yields_exact_target.
+(* the answers, as text *)
+Definition C13_hs_connect_reply_exact := @connect_reply_exact.
+(* a complete request line whose target recognize_http refuses opens no tunnel *)
+Definition C13_hs_bad_target_refused := @bad_target_refused.
+(* a request line longer than the window is refused under every history *)
+Definition C13_hs_long_request_line_refused := @long_request_line_refused.
+(* a request line that never completes times out *)
+Definition C13_hs_incomplete_request_times_out := @incomplete_request_times_out.
+(* no complete request line in the window, or a refused target: no tunnel, under any history *)
+Definition C13_hs_refused_opens_no_tunnel := @refused_opens_no_tunnel.
+(* converse: a tunnel of the HTTP branch names the target of a complete request line; plain HTTP consumes nothing, CONNECT exactly up to the first empty line *)
+Definition C13_hs_http_tunnel_sound := @http_tunnel_sound.
+(* SOCKS5 over FramedRead: a well-formed greeting + request ends as s5_finish says under every history; at least both messages are consumed *)
+Definition C13_hs_socks5_handshake_exact := @socks5_handshake_exact.
+(* SOCKS5 CONNECT: the requested target, 05 00 and the success reply with the local address, exactly the handshake consumed when nothing follows *)
+Definition C13_hs_socks5_connect_exact := @socks5_connect_exact.
+(* ... with early data behind the request: same target and replies, consumed count only bounded *)
+Definition C13_hs_socks5_connect_target_exact := @socks5_connect_target_exact.
+(* BIND and UDP ASSOCIATE get the failure reply: no tunnel *)
+Definition C13_hs_socks5_unsupported_refused := @socks5_unsupported_refused.
+(* whatever the stream: a SOCKS5 tunnel goes to the address of a CONNECT request decoded from the stream behind a decoded greeting *)
+Definition C13_hs_socks5_tunnel_sound := @socks5_tunnel_sound.
+(* REFUTED expectation (finding): with data sent before the reply the consumed count depends on the arrival history and early data is dropped *)
+Definition C13_hs_REFUTED_socks5_early_data := @socks5_early_data_refuted.
+(* REFUTED expectation (finding): two empty lines before CONNECT: only they are consumed, the CONNECT request is forwarded into the tunnel *)
+Definition C13_hs_REFUTED_connect_leading_empty_lines := @connect_leading_empty_lines_refuted.
+(* non-vacuity: CONNECT under three histories *)
+Definition C13_hs_example_connect := @ex_drive_connect.
+(* non-vacuity: plain GET under three histories *)
+Definition C13_hs_example_get := @ex_drive_get.
+(* non-vacuity: SOCKS5 CONNECT under three histories *)
+Definition C13_hs_example_socks := @ex_drive_socks.
+(* non-vacuity: refusals *)
+Definition C13_hs_example_refusals := @ex_drive_refusals.
+(* the CONNECT theorem applies to the example *)
+Definition C13_hs_example_theorem_applies := @ex_connect_by_theorem.
+
+(* EVERY stream (SOCKS5 included, well-formed or not), EVERY history: kind, target and the bytes answered do not depend on the segmentation *)
+Definition C13_hs_independent_modulo_consumed := @handshake_independent_modulo_consumed.
+(* a refusal is a refusal under every history, with the same bytes answered *)
+Definition C13_hs_refusal_independent := @refusal_independent.
+(* SOCKS5: the outcome up to its consumed count is a function of the stream alone *)
+Definition C13_hs_socks5_outcome_modulo_consumed := @socks5_outcome_modulo_consumed.
+
+Check @C13_hs_independent_modulo_consumed.
+Check @C13_hs_refusal_independent.
+Check @C13_hs_socks5_outcome_modulo_consumed.
+Check @C13_hs_request_line_prefix_done.
+Check @C13_hs_request_line_prefix_err.
+Check @C13_hs_request_line_sound.
+Check @C13_hs_request_line_complete.
+Check @C13_hs_recognize_prefix_stable.
+Check @C13_hs_recognize_wait_iff.
+Check @C13_hs_recognize_target_sound.
+Check @C13_hs_recognize_complete.
+Check @C13_hs_recognize_full_window_refuses.
+Check @C13_hs_recognize_full_window_undecided.
+Check @C13_hs_recognize_never_panics.
+Check @C13_hs_consume_step_stable.
+Check @C13_hs_consume_head_exact.
+Check @C13_hs_segmentation_independent.
+Check @C13_hs_plain_http_forwarded_untouched.
+Check @C13_hs_connect_yields_exact_target.
+Check @C13_hs_connect_reply_exact.
+Check @C13_hs_bad_target_refused.
+Check @C13_hs_long_request_line_refused.
+Check @C13_hs_incomplete_request_times_out.
+Check @C13_hs_refused_opens_no_tunnel.
+Check @C13_hs_http_tunnel_sound.
+Check @C13_hs_socks5_handshake_exact.
+Check @C13_hs_socks5_connect_exact.
+Check @C13_hs_socks5_connect_target_exact.
+Check @C13_hs_socks5_unsupported_refused.
+Check @C13_hs_socks5_tunnel_sound.
+Check @C13_hs_REFUTED_socks5_early_data.
+Check @C13_hs_REFUTED_connect_leading_empty_lines.
+Check @C13_hs_example_connect.
+Check @C13_hs_example_get.
+Check @C13_hs_example_socks.
+Check @C13_hs_example_refusals.
+Check @C13_hs_example_theorem_applies.
 Check @C13_authority_exact_noport.
 Check @C13_authority_exact_port.
 Check @C13_connect_exact.
@@ -85,3 +198,40 @@ Print Assumptions C13_socks5_request_exact.
 Print Assumptions C13_socks5_request_segmentation.
 Print Assumptions C13_socks5_greeting_segmentation.
 Print Assumptions C13_guard.
+Print Assumptions C13_hs_request_line_prefix_done.
+Print Assumptions C13_hs_request_line_prefix_err.
+Print Assumptions C13_hs_request_line_sound.
+Print Assumptions C13_hs_request_line_complete.
+Print Assumptions C13_hs_recognize_prefix_stable.
+Print Assumptions C13_hs_recognize_wait_iff.
+Print Assumptions C13_hs_recognize_target_sound.
+Print Assumptions C13_hs_recognize_complete.
+Print Assumptions C13_hs_recognize_full_window_refuses.
+Print Assumptions C13_hs_recognize_full_window_undecided.
+Print Assumptions C13_hs_recognize_never_panics.
+Print Assumptions C13_hs_consume_step_stable.
+Print Assumptions C13_hs_consume_head_exact.
+Print Assumptions C13_hs_segmentation_independent.
+Print Assumptions C13_hs_plain_http_forwarded_untouched.
+Print Assumptions C13_hs_connect_yields_exact_target.
+Print Assumptions C13_hs_connect_reply_exact.
+Print Assumptions C13_hs_bad_target_refused.
+Print Assumptions C13_hs_long_request_line_refused.
+Print Assumptions C13_hs_incomplete_request_times_out.
+Print Assumptions C13_hs_refused_opens_no_tunnel.
+Print Assumptions C13_hs_http_tunnel_sound.
+Print Assumptions C13_hs_socks5_handshake_exact.
+Print Assumptions C13_hs_socks5_connect_exact.
+Print Assumptions C13_hs_socks5_connect_target_exact.
+Print Assumptions C13_hs_socks5_unsupported_refused.
+Print Assumptions C13_hs_socks5_tunnel_sound.
+Print Assumptions C13_hs_REFUTED_socks5_early_data.
+Print Assumptions C13_hs_REFUTED_connect_leading_empty_lines.
+Print Assumptions C13_hs_example_connect.
+Print Assumptions C13_hs_example_get.
+Print Assumptions C13_hs_example_socks.
+Print Assumptions C13_hs_example_refusals.
+Print Assumptions C13_hs_example_theorem_applies.
+Print Assumptions C13_hs_independent_modulo_consumed.
+Print Assumptions C13_hs_refusal_independent.
+Print Assumptions C13_hs_socks5_outcome_modulo_consumed.
